@@ -14,7 +14,7 @@ ASSUME = [common.TRUSTED, "the Go race detector's happens-before analysis (a rac
           "read-only = argument-free methods not named Set*/Add*/With*/Build; IsExpired (clock) is excluded from result comparison"]
 META = {
     "level": "exploration",
-    "technique": "interleaving model of concurrent serialisers over a shared slice with/without spare capacity, model-checked by TLC (MC_Conc: readers-do-not-write action property, results equal sequential; spare-capacity negative control); TLC-generated op sets run on real goroutines under the Go race detector; race reports, result equality, mutation snapshots and the len==cap hook validated by TLC",
+    "technique": "interleaving model of concurrent serialisers over a shared slice with/without spare capacity, model-checked by TLC (MC_Conc: readers-do-not-write action property, results equal sequential; spare-capacity negative control); TLC-generated op sets run on real goroutines under the Go race detector; race reports, result equality, mutation snapshots and the len==cap hook validated by TLC; shared values on which no method has run before they are shared (bare parser calls), incl. mappings returned through the documented recovery",
     "text": ("The deciding instruments are the race detector and result/snapshot equality, hence exploration. TLC explores every interleaving of "
              "the modelled Bytes()/accessor steps for 2-3 goroutines and shows the property holds exactly when the receiver-owned slice has no "
              "spare capacity; the hook binds that fact on the real values, so a change that gives the slice capacity, adds a cache or writes a "
